@@ -319,6 +319,8 @@ func runC03(c *Ctx) {
 	checkHCLKeys(c, "R03a", []string{pSpecutil, pSqlspec, pSqlite, pHCL}, "sqlite")
 	c.Rule("R03d", "the SQL export prints every index key part with its direction: the planners' key-part writers consult IndexPart.Desc on every path (same rule as C01/R01e)", 2)
 	checkIndexPartDescRule(c, "R03d")
+	c.Rule("R03e", ruleTextSQLText, 6)
+	checkSQLTextSearches(c, "R03e")
 
 	// R03b
 	if fi := c.Func("R03b", pCmdlog, "", "fmtPlan"); fi != nil {
